@@ -9,11 +9,12 @@ namespace {
 
 template <typename T>
 void genH(const json &in, json &out) {
-  const std::vector<T> knots = decVec<T>(in.at("knots"));
+  VH_OPERAND std::vector<T> knots = decVec<T>(in.at("knots"));
   const int route = in.at("route").get<int>();
   withOrder(in.at("p").get<size_t>(), [&](auto P) {
     constexpr size_t p = decltype(P)::value;
     if constexpr (p <= 5) {
+      out["knots_after"] = json::array();
       guarded(out, "out", [&] {
         std::vector<Spline<T, p>> r;
         if (route == 0) {
@@ -24,7 +25,7 @@ void genH(const json &in, json &out) {
           r = gen.template generateBSplines<p>();
           out["ggrid"] = projGrid(gen.getGrid());
         } else if (route == 1) {
-          const Grid<T> g(decVec<T>(in.at("grid")));
+          VH_OPERAND Grid<T> g(decVec<T>(in.at("grid")));
           const bspline::BSplineGenerator<T> gen(knots, g);
           r = gen.template generateBSplines<p>();
           out["ggrid"] = projGrid(gen.getGrid());
@@ -36,6 +37,7 @@ void genH(const json &in, json &out) {
         for (const auto &s : r) a.push_back(projSpline(s));
         out["res"] = a;
       });
+      out["knots_after"] = encVec(knots);
     }
   });
 }
